@@ -454,7 +454,11 @@ def w4(chk, repo):
             if e.kind == "store" and (e.d.get("obj") == ("out", "cg_location") and (e.d.get("csubs") or e.d.get("op") != "=") or (tobj is not None and e.d.get("obj") == tobj)):
                 v = e.d.get("val")
                 d = v.dom.get("SYMX") if v is not None else None
-                mods.append(((e.d.get("csubs") or ("",))[0], e.d.get("op"), d, e))
+                cs0 = (e.d.get("csubs") or ("",))[0]
+                sv0 = (e.d.get("sub_vals") or (None,))[0]
+                if sv0 is not None and sv0.kind == "num" and sv0.sym is not None and sv0.sym.is_number:
+                    cs0 = str(sv0.sym)  # an index held in a local / helper parameter: its value, not its name
+                mods.append((cs0, e.d.get("op"), d, e))
         key = "StructuralCG %s" % tag
         if sym is None:
             chk.undecided("W4", key, c.where, "symmetry atom not found")
